@@ -173,7 +173,7 @@ def run_vector(vec, emb, pool, eid, recv=None):
         "rett": pj.tier(rett) if rett is not None else T.NONE,
         "post": proj_tg(pj, recv), "argtpost": pj.tier(argt), "argtgpost": proj_tg(pj, argtg),
         "out": buf.getvalue() != "", "each": each, "valid": valid, "alias": alias, "filesame": filesame,
-        "arith": True, "exactfp": emb.dyadic, "offgrid": 0, "emb": emb.name,
+        "arith": True, "exactfp": emb.dyadic, "offgrid": 0, "emb": emb.name, "variant": eid % 4,
         "pool": next((k for k, v in T.POOLS.items() if v is pool), "ascii"),
     }
     ev["offgrid"] = pj.offgrid
